@@ -3,14 +3,22 @@ C09 — the result does not depend on how fast goroutines are scheduled; in part
 can make progress only when that is really so.
 
 This file contains the part of C09 that concerns what a plugin step tells the fallback deadlock detector
-(`workflow.go`, `checkForDeadlocks`: fires when no step is `starting`/`running`, nothing is ready and no output exists on
-`detectorRetries + 1` consecutive polls).  Model: `Arca.Model.PluginState` — `r.state` / `r.currentStage` at the
-granularity of the lock regions and callbacks of `run()` and of the `provide*` handlers.
+(`workflow.go`, `checkForDeadlocks`: fires when no step counts as `starting`/`running`, nothing is ready and no output
+exists on `detectorRetries + 1` consecutive polls).  Model: `Arca.Model.PluginState` — the raw `r.state` /
+`r.currentStage` at the granularity of the lock regions and callbacks of `run()` and of the `provide*` handlers, what
+`State()` answers, the loop-side record (`l.reportedStages`, `l.completedSteps`, written when a report is PROCESSED) and
+the classification `countStates` makes since e0ccfb1 (`countsAs`).
 
-`detector_sound` ("State() ∈ {waiting_for_input, finished} ⇒ the step cannot move without the engine") is FALSE for
-the unchanged code (finding F10a).  Its negation is proved with explicit reachable witnesses, the positive statement
-is kept for all states outside the explicitly listed windows (`detector_sound_partial`), and the polling lemma says
-why a window only matters when it lasts longer than the polling span.
+* The RAW state is unsound for the detector (finding F10a): `raw_state_window_*` are reachable states in which it says
+  `waiting_for_input` / `finished` while the step is moving; in each of them `countsAs` now says `running`.
+* `detector_sound_waiting` (full strength): counted as `waiting` with the context not cancelled ⇒ parked on an empty
+  channel or about to park silently (`Settled`).  With the context cancelled the step is on its way to report `closed`.
+* `detector_sound_finished_partial`: counted as `finished` ⇒ nothing but the deferred closes is left — EXCEPT between the
+  processing of `OnStepComplete` and the `OnStepStageFailure` notifications that follow it on every ending but the
+  successful one (`detector_sound_counterexample_failure_tail`).
+* `no_lost_check`: the refinement never blinds the detector — wherever it turns a raw `waiting_for_input` / `finished`
+  into `running`, every run of the step to rest contains the processing of a report that re-runs the check and after
+  which the refinement is no longer at work.
 -/
 import Arca.Proofs.PluginState
 
@@ -20,142 +28,216 @@ open Arca.Model.PluginState
 /-! ## prefixes of executions used by the witnesses -/
 
 /-- `run()` up to the blocking select of deployStage (no deploy input yet) -/
-def toDeployWait : List Act := [.internal, .internal, .internal, .internal]
+def toDeployWait : List Act := [.internal, .deliver, .internal, .internal, .internal]
 /-- deploy input given first, deployed, up to the lock region of enableStage (not yet executed) -/
-def toEnableLock : List Act := [.provideDeploy, .internal, .internal, .internal, .internal, .deployOk, .internal]
+def toEnableLock : List Act :=
+  [.provideDeploy, .internal, .deliver, .internal, .internal, .internal, .deployOk, .internal]
+/-- .. parked in enableStage -/
+def toEnableWait : List Act := toEnableLock ++ [.internal, .deliver, .internal]
 /-- .. through enableStage with `enabled = true`, up to the non-blocking receive of startStage (not yet executed) -/
-def toStartTry : List Act := toEnableLock ++ [.internal, .internal, .provideEnabling true, .recv, .internal]
+def toStartTry : List Act := toEnableWait ++ [.provideEnabling true, .recv, .deliverFailure]
+/-- a failed deployment up to the pending `OnStepComplete` -/
+def toFailedCompletion : List Act :=
+  [.provideDeploy, .internal, .deliver, .internal, .internal, .internal, .deployFail, .internal, .deliver, .internal, .internal]
 
-/-! ## the deploy stage -/
+/-! ## the raw state: the windows of F10a, and what the detector makes of them now -/
 
-/-- What does hold: whenever the step is QUIESCENT in stage `deploy` (parked on the empty channel), the deploy input has
-    not been provided; and providing it while the state is `waiting_for_input` flips the state to `running` in the
-    same lock region. -/
-theorem deploy_wait_is_sound (s : St) (hr : Reachable s) (hst : s.stage = .deploy) (hq : Quiescent s = true)
-    (hnd : s.pc ≠ .done) : s.deployAvail = false ∧
-      (s.state = .waiting → ∃ s', step s .provideDeploy = some s' ∧ s'.state = .running) := by
-  have hi := Arca.Proofs.PluginState.reachable_inv s hr
-  rcases Arca.Proofs.PluginState.quiescent_shape s hi hq with h | h | h | h
-  · rcases s with ⟨pc, state, stage, dA, eA, rA, dO, eO, eV, rO, early, ctx⟩
-    simp only at h hst
-    obtain ⟨rfl, rfl, rfl⟩ := h
-    subst hst
-    simp [Arca.Proofs.PluginState.inv] at hi
-    have hda : dA = false := by simpa using hi.2.2.symm
-    subst hda
-    refine ⟨rfl, ?_⟩
-    intro hw
-    simp only at hw
-    subst hw
-    exact ⟨_, rfl, rfl⟩
-  · rcases s with ⟨pc, state, stage, dA, eA, rA, dO, eO, eV, rO, early, ctx⟩
-    simp only at h hst
-    obtain ⟨rfl, -, -⟩ := h
-    subst hst
-    simp [Arca.Proofs.PluginState.inv] at hi
-  · rcases s with ⟨pc, state, stage, dA, eA, rA, dO, eO, eV, rO, early, ctx⟩
-    simp only at h hst
-    obtain ⟨rfl, -, -⟩ := h
-    subst hst
-    simp [Arca.Proofs.PluginState.inv] at hi
-  · exact absurd h hnd
+/-- (0) deployStage: input provided between the non-blocking `select` (default branch) and the lock region that writes
+    `waiting_for_input`; `provideDeployInput` saw `running` and did not flip the state -/
+theorem raw_state_window_deploy_race :
+    ∃ s, execute init [.internal, .deliver, .internal, .internal, .provideDeploy, .internal] = some s ∧
+      s.stage = .deploy ∧ s.state = .waiting ∧ s.deployAvail = true ∧ Quiescent s = false ∧ countsAs s = .running := by
+  refine ⟨_, rfl, ?_, ?_, ?_, ?_, ?_⟩ <;> decide
 
-/-- The statement without "quiescent" — stage `deploy` ∧ `waiting_for_input` ⇒ input not provided — is FALSE: the input
-    can arrive between the non-blocking `select` of deployStage (default branch taken) and the lock region that writes
-    `waiting_for_input`; `provideDeployInput` then sees `running` and does not flip. -/
-theorem deploy_wait_is_sound_counterexample :
-    ∃ s, execute init [.internal, .internal, .internal, .provideDeploy, .internal] = some s ∧
-      s.stage = .deploy ∧ s.state = .waiting ∧ s.deployAvail = true ∧ Quiescent s = false := by
-  refine ⟨_, rfl, ?_, ?_, ?_, ?_⟩ <;> decide
-
-/-- .. and that race is the only way: stage `deploy`, `waiting_for_input` and input provided happen together only with
-    the item still in the channel or just received (two moves of `run()` from `running`), or while the step is closed. -/
-theorem deploy_wait_is_sound_partial (s : St) (hr : Reachable s) (hst : s.stage = .deploy) (hw : s.state = .waiting)
-    (ha : s.deployAvail = true) : inDeployRace s = true ∨ s.pc = .failedLock .closed :=
-  Arca.Proofs.PluginState.deploy_waiting_provided s (Arca.Proofs.PluginState.reachable_inv s hr) hst hw ha
-
-/-! ## `detector_sound` is false -/
-
-/-- (i) enableStage writes `waiting_for_input` although the enabling input is already available, and then makes the
-    `OnStageChange` callback before it even looks at the channel -/
-theorem detector_sound_counterexample_enabling :
+/-- (i) enableStage writes `waiting_for_input` although the enabling input is already available, and then reports the
+    stage change before it even looks at the channel -/
+theorem raw_state_window_enabling :
     ∃ s, execute init (toEnableLock ++ [.provideEnabling true, .internal]) = some s ∧
-      s.state = .waiting ∧ s.stage = .enabling ∧ s.enabledAvail = true ∧ s.enabledOcc = true ∧ s.pc = .eCb ∧
-      Quiescent s = false := by
+      s.state = .waiting ∧ s.stage = .enabling ∧ s.enabledAvail = true ∧ s.pc = .eCb ∧
+      Quiescent s = false ∧ countsAs s = .running := by
+  refine ⟨_, rfl, ?_, ?_, ?_, ?_, ?_, ?_⟩ <;> decide
+
+/-- (i) the same with no input yet: the report `deploy -> enabling` is in flight (`CurrentStage() != reportedStages`) -/
+theorem raw_state_window_enabling_report_in_flight :
+    ∃ s, execute init (toEnableLock ++ [.internal]) = some s ∧
+      s.state = .waiting ∧ s.enabledAvail = false ∧ s.pc = .eCb ∧ s.reportedStage = some .deploy ∧
+      reportedState s = .waiting ∧ countsAs s = .running := by
   refine ⟨_, rfl, ?_, ?_, ?_, ?_, ?_, ?_⟩ <;> decide
 
 /-- (ii) enabling input provided while `run()` is parked in enableStage: `provideEnablingInput` leaves the state alone -/
-theorem detector_sound_counterexample_enabling_provided_while_parked :
-    ∃ s, execute init (toEnableLock ++ [.internal, .internal, .provideEnabling true]) = some s ∧
-      s.state = .waiting ∧ s.pc = .eWait ∧ s.enabledOcc = true ∧ Quiescent s = false := by
-  refine ⟨_, rfl, ?_, ?_, ?_, ?_⟩ <;> decide
+theorem raw_state_window_enabling_provided_while_parked :
+    ∃ s, execute init (toEnableWait ++ [.provideEnabling true]) = some s ∧
+      s.state = .waiting ∧ s.pc = .eWait ∧ s.enabledOcc = true ∧ Quiescent s = false ∧ countsAs s = .running := by
+  refine ⟨_, rfl, ?_, ?_, ?_, ?_, ?_⟩ <;> decide
 
 /-- (iii) startStage found no run input in its non-blocking receive, the input arrives, and
     `transitionStageWithOutput(starting, waiting_for_input)` writes `waiting_for_input` afterwards -/
-theorem detector_sound_counterexample_starting :
+theorem raw_state_window_starting :
     ∃ s, execute init (toStartTry ++ [.internal, .provideStarting, .internal]) = some s ∧
-      s.state = .waiting ∧ s.stage = .starting ∧ s.runAvail = true ∧ s.runOcc = true ∧ s.pc = .transCb .starting ∧
-      Quiescent s = false := by
+      s.state = .waiting ∧ s.stage = .starting ∧ s.runAvail = true ∧ s.pc = .transCb .starting ∧
+      Quiescent s = false ∧ countsAs s = .running := by
   refine ⟨_, rfl, ?_, ?_, ?_, ?_, ?_, ?_⟩ <;> decide
 
 /-- (ii) run input provided while `run()` is parked in startStage: `provideStartingInput` leaves the state alone -/
-theorem detector_sound_counterexample_starting_provided_while_parked :
-    ∃ s, execute init (toStartTry ++ [.internal, .internal, .internal, .internal, .provideStarting]) = some s ∧
-      s.state = .waiting ∧ s.pc = .sWait ∧ s.runOcc = true ∧ Quiescent s = false := by
-  refine ⟨_, rfl, ?_, ?_, ?_, ?_⟩ <;> decide
+theorem raw_state_window_starting_provided_while_parked :
+    ∃ s, execute init (toStartTry ++ [.internal, .internal, .deliver, .internal, .internal, .provideStarting]) = some s ∧
+      s.state = .waiting ∧ s.pc = .sWait ∧ s.runOcc = true ∧ Quiescent s = false ∧ countsAs s = .running := by
+  refine ⟨_, rfl, ?_, ?_, ?_, ?_, ?_⟩ <;> decide
 
-/-- (iv) completeStep writes `finished` before `OnStepComplete` is delivered (here: after a failed deployment) -/
-theorem detector_sound_counterexample_completion_in_flight :
-    ∃ s, execute init [.provideDeploy, .internal, .internal, .internal, .internal, .deployFail, .internal, .internal, .internal]
-        = some s ∧
-      s.state = .finished ∧ s.pc = .complCb .deployFailed ∧ Quiescent s = false := by
-  refine ⟨_, rfl, ?_, ?_, ?_⟩ <;> decide
+/-- (iv) completeStep writes `finished` before `OnStepComplete` is processed -/
+theorem raw_state_window_completion_in_flight :
+    ∃ s, execute init toFailedCompletion = some s ∧
+      s.state = .finished ∧ s.pc = .complCb .deployFailed ∧ s.completed = false ∧ Quiescent s = false ∧
+      countsAs s = .running := by
+  refine ⟨_, rfl, ?_, ?_, ?_, ?_, ?_⟩ <;> decide
 
-/-- the full statement is false -/
-theorem detector_sound_counterexample :
+/-- so the statement about the RAW state — `r.state ∈ {waiting, finished}` ⇒ quiescent — is false -/
+theorem raw_state_unsound :
     ¬ (∀ s, Reachable s → (s.state = .waiting ∨ s.state = .finished) → Quiescent s = true) := by
   intro h
-  obtain ⟨s, hex, hw, _, _, _, _, hq⟩ := detector_sound_counterexample_enabling
-  have hr := execute_reachable Reachable.init _ s hex
-  have := h s hr (Or.inl hw)
+  obtain ⟨s, hex, hw, _, _, _, hq, _⟩ := raw_state_window_enabling
+  have := h s (execute_reachable Reachable.init _ s hex) (Or.inl hw)
   rw [hq] at this
   cases this
 
-/-! ## where it does hold -/
-
-/-- `State() ∈ {waiting_for_input, finished}` implies quiescence in every reachable state OUTSIDE the windows
-    `InWindow`: (0) the deploy race, (i)/(ii) from the lock region of enableStage to the lock region of the next
-    transition unless parked on the empty channel, (ii)/(iii) from the callback of the transition into `starting` to the
-    lock region after the receive unless parked on the empty channel, (iv) from completeStep's lock region to the end of
-    `run()`, and closing (parked with a cancelled context / entering closedEarly). -/
-theorem detector_sound_partial (s : St) (hr : Reachable s) (hw : s.state = .waiting ∨ s.state = .finished)
+/-- .. and the windows `InWindow` are all there is: outside them the raw state is sound -/
+theorem raw_state_windows_exhaustive (s : St) (hr : Reachable s) (hw : s.state = .waiting ∨ s.state = .finished)
     (hout : InWindow s = false) : Quiescent s = true := by
-  rcases Arca.Proofs.PluginState.classified s (Arca.Proofs.PluginState.reachable_inv s hr) hw with h | h
+  rcases Arca.Proofs.PluginState.raw_classified s (Arca.Proofs.PluginState.reachable_inv s hr) hw with h | h
   · exact h
   · rw [hout] at h
     cases h
 
-/-- the same read the other way round: outside the windows an active step says `starting` or `running` -/
-theorem active_step_reports_activity (s : St) (hr : Reachable s) (hq : Quiescent s = false) (hout : InWindow s = false) :
-    s.state = .starting ∨ s.state = .running := by
-  cases hst : s.state with
-  | starting => exact Or.inl rfl
-  | running => exact Or.inr rfl
-  | waiting => have := detector_sound_partial s hr (Or.inl hst) hout; rw [hq] at this; cases this
-  | finished => have := detector_sound_partial s hr (Or.inr hst) hout; rw [hq] at this; cases this
+/-- raw `waiting_for_input` in stage `deploy` with the input provided: only the deploy race, or being closed -/
+theorem raw_deploy_wait_partial (s : St) (hr : Reachable s) (hst : s.stage = .deploy) (hw : s.state = .waiting)
+    (ha : s.deployAvail = true) : inDeployRace s = true ∨ s.pc = .failedLock .closed :=
+  Arca.Proofs.PluginState.deploy_waiting_provided s (Arca.Proofs.PluginState.reachable_inv s hr) hst hw ha
 
-/-- every window is left by moves of `run()` alone (it is never quiescent) — so each lasts only as long as `run()` is
-    not scheduled or a callback is held up -/
-theorem windows_are_not_quiescent (s : St) (hr : Reachable s) (hin : InWindow s = true) : Quiescent s = false := by
+/-! ## the detector's view since e0ccfb1 -/
+
+/-- `State()` never answers `waiting_for_input` in stage `deploy` once the deploy input has been provided; and a step
+    COUNTED as waiting in stage `deploy` (context not cancelled) is parked on the empty channel. -/
+theorem deploy_wait_is_sound (s : St) (hr : Reachable s) (hst : s.stage = .deploy) :
+    (reportedState s = .waiting → s.deployAvail = false) ∧
+    (countsAs s = .waiting → s.ctxDone = false → Quiescent s = true ∧ s.deployAvail = false) := by
+  refine ⟨?_, ?_⟩
+  · intro h
+    cases hd : s.deployAvail with
+    | false => rfl
+    | true =>
+      simp only [reportedState, currentStageInputAvailable, hst, hd] at h
+      split at h
+      · cases h
+      · rename_i hn
+        exact absurd ⟨h, trivial⟩ hn
+  · intro hc hctx
+    exact Arca.Proofs.PluginState.deploy_counts_waiting s (Arca.Proofs.PluginState.reachable_inv s hr) hst hc hctx
+
+/-- FULL STRENGTH for `waiting`: a step counted as waiting whose context is not cancelled is parked on an empty channel
+    with no report in flight (`Quiescent`), or is returning from the handler that has just processed its report and
+    will park without calling the handler again or finding an input (`Settled`). -/
+theorem detector_sound_waiting (s : St) (hr : Reachable s) (hc : countsAs s = .waiting) (hctx : s.ctxDone = false) :
+    Settled s = true :=
+  Arca.Proofs.PluginState.counts_waiting_settled s (Arca.Proofs.PluginState.reachable_inv s hr) hc hctx
+
+/-- what `Settled` means operationally: the only moves left are silent local ones (no handler call, no receive, no
+    answer of the deployer or plugin awaited), and they stay settled until the step is quiescent -/
+theorem settled_is_silent (s s' : St) (a : Act) (hs : Settled s = true) (ha : a ∈ progressActs)
+    (hstep : step s a = some s') : a = .internal ∧ Settled s' = true :=
+  Arca.Proofs.PluginState.settled_step s s' a hs ha hstep
+
+/-- the closing window, exactly: counted as waiting with the context cancelled (stop condition or Close arrived, `run()`
+    has not yet taken its `ctx.Done()` branch) — the step is NOT at rest … -/
+theorem detector_sound_counterexample_cancel_in_flight :
+    ∃ s, execute init (toEnableWait ++ [.cancel]) = some s ∧
+      countsAs s = .waiting ∧ s.ctxDone = true ∧ Quiescent s = false ∧ Settled s = false := by
+  refine ⟨_, rfl, ?_, ?_, ?_, ?_⟩ <;> decide
+
+/-- … but it owes a checking report: it will go through `closedEarly` and report its completion -/
+theorem closing_window_owes_completion (s : St) (hr : Reachable s) (hc : countsAs s = .waiting) (hctx : s.ctxDone = true) :
+    owesCheck s = true ∧ Quiescent s = false := by
   have hi := Arca.Proofs.PluginState.reachable_inv s hr
-  cases hq : Quiescent s with
-  | false => rfl
-  | true =>
-    rcases Arca.Proofs.PluginState.quiescent_shape s hi hq with h | h | h | h <;>
-      rcases s with ⟨pc, state, stage, dA, eA, rA, dO, eO, eV, rO, early, ctx⟩ <;>
-      simp only at h <;>
-      (first | (obtain ⟨rfl, rfl, rfl⟩ := h) | subst h) <;>
-      simp [InWindow, inDeployRace, inEnableWindow, inStartWindow, inCompletionWindow, inClosingWindow] at hin
+  have ho := Arca.Proofs.PluginState.counts_waiting_ctx_owes s hi hc hctx
+  exact ⟨ho, Arca.Proofs.PluginState.owes_not_quiescent s hi ho⟩
+
+/-- `finished`: sound except in the failure tail -/
+theorem detector_sound_finished_partial (s : St) (hr : Reachable s) (hc : countsAs s = .finished)
+    (hft : inFailureTail s = false) : Settled s = true :=
+  Arca.Proofs.PluginState.counts_finished_settled s (Arca.Proofs.PluginState.reachable_inv s hr) hc hft
+
+/-- STILL FALSE at full strength: once `OnStepComplete` has been processed the step counts as finished, but on every
+    ending except the successful one `markStageFailures` / `markNotClosable` still have `OnStepStageFailure`
+    notifications to deliver (here: after a failed deployment, the failures of enabling … outputs, closed). -/
+theorem detector_sound_counterexample_failure_tail :
+    ∃ s, execute init (toFailedCompletion ++ [.deliver]) = some s ∧
+      countsAs s = .finished ∧ s.ctxDone = false ∧ inFailureTail s = true ∧ Quiescent s = false ∧ Settled s = false ∧
+      (∃ s1 s2, step s .internal = some s1 ∧ step s1 .deliverFailure = some s2) := by
+  refine ⟨_, rfl, ?_, ?_, ?_, ?_, ?_, _, _, rfl, rfl⟩ <;> decide
+
+/-- the combined statement -/
+theorem detector_sound_partial (s : St) (hr : Reachable s) (hc : countsAs s = .waiting ∨ countsAs s = .finished)
+    (hctx : s.ctxDone = false) (hft : inFailureTail s = false) : Settled s = true := by
+  rcases hc with hc | hc
+  · exact detector_sound_waiting s hr hc hctx
+  · exact detector_sound_finished_partial s hr hc hft
+
+/-- the full statement (only the context exception) is false, because of the failure tail -/
+theorem detector_sound_counterexample :
+    ¬ (∀ s, Reachable s → (countsAs s = .waiting ∨ countsAs s = .finished) → s.ctxDone = false → Settled s = true) := by
+  intro h
+  obtain ⟨s, hex, hc, hctx, _, _, hs, _⟩ := detector_sound_counterexample_failure_tail
+  have := h s (execute_reachable Reachable.init _ s hex) (Or.inr hc) hctx
+  rw [hs] at this
+  cases this
+
+/-! ## the refinement does not blind the detector -/
+
+/-- per program point: wherever the refinement is at work, `run()` owes a report whose processing runs the check … -/
+theorem refinement_owes_check (s : St) (hr : Reachable s) (href : Refined s = true) : owesCheck s = true :=
+  Arca.Proofs.PluginState.refined_owes s (Arca.Proofs.PluginState.reachable_inv s hr) href
+
+/-- … a step that owes one is not at rest, and every action (of the step, the plugin side or the engine) either IS the
+    processing of such a report — an `OnStageChange` with a previous stage or the `OnStepComplete`, never only an
+    `OnStepStageFailure` — or leaves it owed. -/
+theorem owed_check_is_delivered_or_kept (s s' : St) (a : Act) (hr : Reachable s) (ho : owesCheck s = true)
+    (hstep : step s a = some s') :
+    Quiescent s = false ∧ ((a = .deliver ∧ checkingReportPending s = true) ∨ owesCheck s' = true) :=
+  ⟨Arca.Proofs.PluginState.owes_not_quiescent s (Arca.Proofs.PluginState.reachable_inv s hr) ho,
+   Arca.Proofs.PluginState.owes_step s s' a (Arca.Proofs.PluginState.reachable_inv s hr) ho hstep⟩
+
+/-- over schedules: from a state that owes a check, every run to rest — whatever the engine and the plugin side do in
+    between — contains the processing of a checking report after which the refinement is no longer at work -/
+theorem owed_check_runs : ∀ (acts : List Act) (s t : St), Reachable s → owesCheck s = true → execute s acts = some t →
+    Quiescent t = true → hasFaithfulCheck s acts = true := by
+  intro acts
+  induction acts with
+  | nil =>
+    intro s t hr ho hex hq
+    simp [execute] at hex
+    subst hex
+    have := Arca.Proofs.PluginState.owes_not_quiescent s (Arca.Proofs.PluginState.reachable_inv s hr) ho
+    rw [hq] at this
+    cases this
+  | cons a rest ih =>
+    intro s t hr ho hex hq
+    simp only [execute] at hex
+    cases hstep : step s a with
+    | none => simp [hstep] at hex
+    | some s' =>
+      simp only [hstep] at hex
+      have hr' : Reachable s' := Reachable.step a hr hstep
+      simp only [hasFaithfulCheck, hstep, Bool.or_eq_true, Bool.and_eq_true]
+      rcases Arca.Proofs.PluginState.owes_step s s' a (Arca.Proofs.PluginState.reachable_inv s hr) ho hstep with ⟨ha, hp⟩ | ho'
+      · cases href : Refined s' with
+        | false => left; subst ha; simp [hp]
+        | true => right; exact ih s' t hr' (refinement_owes_check s' hr' href) hex hq
+      · right; exact ih s' t hr' ho' hex hq
+
+/-- `no_lost_check`: whenever `countsAs` turns a raw `waiting_for_input` / `finished` into `running`, every run of the
+    step to rest contains a check that sees the step as it is -/
+theorem no_lost_check (s t : St) (acts : List Act) (hr : Reachable s) (href : Refined s = true)
+    (hex : execute s acts = some t) (hq : Quiescent t = true) : hasFaithfulCheck s acts = true :=
+  owed_check_runs acts s t hr (refinement_owes_check s hr href) hex hq
 
 /-! ## why a short window cannot trigger the detector -/
 
@@ -185,14 +267,33 @@ theorem short_window_cannot_trigger (t0 d a b : Nat) (hshort : b ≤ a + Arca.Ge
 
 /-! ## non-vacuity -/
 
-/-- quiescent waiting states exist (parked on the empty deploy channel) and satisfy the partial theorem's hypotheses -/
-example : (execute init toDeployWait).map (fun s => (s.state, Quiescent s, InWindow s)) = some (.waiting, true, false) := by
-  decide
+/-- a step counted as waiting that is quiescent (parked on the empty deploy channel, report processed) -/
+example : (execute init toDeployWait).map (fun s => (s.state, countsAs s, Quiescent s, Settled s)) =
+    some (.waiting, .waiting, true, true) := by decide
 
-/-- the step does get through to `done`, where `finished` is sound -/
-example : (execute init (toStartTry ++ [.internal, .internal, .internal, .internal, .provideStarting, .recv, .internal,
-    .startOk, .internal, .internal, .resultOk, .internal, .internal, .internal, .internal, .internal])).map
-    (fun s => (s.pc, s.state, s.stage, Quiescent s)) = some (.done, .finished, .outputs, true) := by decide
+/-- a step counted as waiting that is settled but not yet parked: inside / returning from the handler of
+    `OnStageChange(deploy -> enabling)`, where the first poll runs -/
+example : (execute init (toEnableLock ++ [.internal, .deliver])).map
+    (fun s => (s.pc, countsAs s, Quiescent s, Settled s, Refined s)) = some (.eCbRet, .waiting, false, true, false) := by decide
+
+/-- the refinement is at work in a reachable state, a check is owed … -/
+example : (execute init (toEnableLock ++ [.provideEnabling true, .internal])).map (fun s => (Refined s, owesCheck s)) =
+    some (true, true) := by decide
+
+/-- … and the run from there to rest (the step parks waiting for its run input) contains a faithful check: the processing
+    of `OnStageChange(enabling -> starting)` -/
+example :
+    (match execute init (toEnableLock ++ [.provideEnabling true, .internal]) with
+     | some s =>
+       let acts : List Act := [.deliver, .internal, .recv, .deliverFailure, .internal, .internal, .deliver, .internal, .internal]
+       ((execute s acts).map Quiescent, hasFaithfulCheck s acts)
+     | none => (none, false)) = (some true, true) := by decide
+
+/-- the step does get through to `done`; there `finished` is counted and is sound -/
+example : (execute init (toStartTry ++ [.internal, .internal, .deliver, .internal, .internal, .provideStarting, .recv, .internal,
+    .startOk, .internal, .deliver, .internal, .resultOk, .internal, .deliver, .internal, .internal, .deliver, .internal,
+    .internal])).map (fun s => (s.pc, s.state, s.stage, countsAs s, Quiescent s)) =
+    some (.done, .finished, .outputs, .finished, true) := by decide
 
 /-- the detector does fire on four idle polls and not on three -/
 example : detectorFires Arca.Gen.detectorRetries [[.waiting], [.waiting, .finished], [.finished], [.waiting]] = true := by decide
